@@ -41,7 +41,70 @@ def _rand_grid(rng, alphabet, weights, w=None, h=None, must=(), exactly_one=None
     return ["".join(row) for row in cells], w, h
 
 
+def _big_gridworld(case, rng):
+    """a plain grid world of 500-700 cells with a few walls, unit step cost, one goal, undiscounted: "can be built and planned on"
+    at a size the small layouts never reach. Reference: breadth-first distances on the layout."""
+    from msdm.domains.gridworld.mdp import GridWorld, TERMINALSTATE
+    from msdm.algorithms import ValueIteration, PolicyIteration
+    w, h = rng.choice([(23, 23), (25, 24), (26, 26), (40, 14)])
+    cells = [["." for _ in range(w)] for _ in range(h)]
+    for _ in range(rng.randint(1, 12)):
+        cells[rng.randrange(h)][rng.randrange(w)] = "#"
+    cells[h - 1][0] = "s"
+    cells[0][w - 1] = "g"
+    rows = ["".join(r_) for r_ in cells]
+    case.family = "GridWorld-big"
+    case.params = dict(w=w, h=h, walls=sum(r_.count("#") for r_ in rows))
+    case.sig("big", tuple(rows))
+    case.nontrivial = True
+    case.count("big_grid_worlds")
+    gw = case.call("GridWorld", GridWorld, tile_array=rows, step_cost=-1, feature_rewards={"g": 0}, absorbing_features=("g",),
+                   success_prob=1.0, discount_rate=1.0)
+    if gw is case.FAIL:
+        return
+    # distances to the goal cell over free cells (x = column, y = h-1-row)
+    free = {(c, h - 1 - r) for r in range(h) for c in range(w) if rows[r][c] != "#"}
+    goal = (w - 1, h - 1)
+    dist = {goal: 0}
+    frontier = [goal]
+    while frontier:
+        nxt = []
+        for (x, y) in frontier:
+            for dx, dy in ((1, 0), (-1, 0), (0, 1), (0, -1)):
+                q = (x + dx, y + dy)
+                if q in free and q not in dist:
+                    dist[q] = dist[(x, y)] + 1
+                    nxt.append(q)
+        frontier = nxt
+    planner = ValueIteration() if rng.random() < 0.7 else PolicyIteration()
+    res = case.call(type(planner).__name__ + ".plan_on", planner.plan_on, gw)
+    case.count("planning_probes")
+    if res is case.FAIL:
+        return
+    S = [s_ for s_ in gw.state_list if s_ != TERMINALSTATE]
+    case.count("transitions_checked", len(S))
+    bad = []
+    for s_ in S:
+        xy = (s_["x"], s_["y"])
+        if xy not in free:
+            continue          # (wall cells are listed as states too; an agent never stands there and they are not judged)
+        # entering the goal costs a step; the goal cell itself leads to the terminal state for free
+        want = -float(dist[xy]) if xy in dist else 0.0
+        got = float(res.state_value[s_])
+        if abs(got - want) > 1e-6 * max(1.0, abs(want)):
+            bad.append((xy, got, want))
+    case.check(not bad, "planning-on-a-large-layout-gives-wrong-values", lambda: f"{w}x{h}: {len(bad)} cells differ, e.g. {bad[:3]!r}")
+    start = (0, 0)
+    if start in dist:
+        case.check(abs(float(res.initial_value) + dist[start]) <= 1e-6 * max(1, dist[start]), "planning-on-a-large-layout-gives-wrong-values",
+                   lambda: f"initial value {res.initial_value!r} vs {-dist[start]}")
+
+
 def run_case(case, rng):
+    if rng.random() < (0.01 if case.tier == "quick" else 0.002):
+        for k in ("gridworld_physics_checked", "observation_dists_checked"):
+            case.count(k, 0)
+        return _big_gridworld(case, rng)
     dom = rng.choice(["GridWorld", "GridWorld", "GridWorld", "WindyGridWorld", "WindyGridWorld", "CliffWalking",
                       "Tiger", "LoadUnload", "HeavenOrHell", "HeavenOrHell"])
     case.family = dom
@@ -278,6 +341,19 @@ def _GridWorld(case, rng):
         case.count("gridworld_key_order_checks")
         if bad2 is not case.FAIL:
             case.check(not bad2, "gridworld:transition-depends-on-the-key-order-of-an-equal-state", lambda: f"{bad2[:1]!r}")
+        # "can be planned on" also by a planner that walks the functions and whatever they list as successors (LAO*): the states it
+        # ends up valuing are states of the domain
+        if step < 0 and all(v_ <= 0 for v_ in frd.values()) and any(f_ in absf for f_ in feat.values()) and rng.random() < 0.5:
+            from msdm.algorithms import LAOStar
+            try:       # (whether LAO* itself copes with the layout - unreachable goals, moves that never succeed - is C03's subject)
+                lres = LAOStar(heuristic=lambda s_: 0.0, seed=0, max_lao_star_iterations=25).plan_on(gw)
+            except Exception:
+                lres = None
+            case.count("function_walking_planner_probes")
+            if lres is not None:
+                listed = set(gw.state_list)
+                stray = [s_ for s_ in lres.state_value_map if s_ not in listed]
+                case.check(not stray, "planner-is-led-to-states-outside-the-state-list", lambda: f"{stray[:3]!r} layout {rows!r} success_prob={sp_}")
         # a grid world written by SUBCLASSING: a closed gate (one more wall) and a pit (one more absorbing cell) added by
         # overriding the public `walls` / `absorbing_states` accessors, the way the class's own physics reads them
         free = [xy for xy, f in sorted(feat.items()) if f == "."]
